@@ -25,6 +25,7 @@ from vf import oalmodel as om
 from vf.xmodel import Outcome
 
 INT, STR, BOOL, ID = 'int', 'str', 'bool', 'id'
+REAL = 'real'        # local variables and literals only (the schemas of C04 have no real attributes)
 TYPE_OF = {'INTEGER': INT, 'STRING': STR, 'BOOLEAN': BOOL, 'UNIQUE_ID': ID, 'REAL': 'real'}
 
 
@@ -107,7 +108,7 @@ class Ref(object):
 
     def ev(self, e):
         k = e[0]
-        if k in ('int', 'str', 'bool'):
+        if k in ('int', 'str', 'bool', 'real'):
             return e[1]
         if k == 'var':
             return self.lookup(e[1])
@@ -149,7 +150,7 @@ class Ref(object):
             if op in ('+', '-', '*'):
                 v = l + r if op == '+' else (l - r if op == '-' else l * r)
                 # resource bound of the generator (not a language rule): keep values small
-                if (isinstance(v, str) and len(v) > 2000) or (isinstance(v, int) and abs(v) > 10 ** 18):
+                if (isinstance(v, str) and len(v) > 2000) or (isinstance(v, (int, float)) and abs(v) > 10 ** 18):
                     raise RefError('value too large')
                 return v
             if op == '/':
@@ -388,6 +389,8 @@ def S(node, sem):
 def lit(v):
     if isinstance(v, bool):
         return S(om.boolean(v), ('bool', v))
+    if isinstance(v, float):
+        return S(om.real(repr(v)), ('real', v))
     if isinstance(v, int):
         if v < 0:
             return S(om.unary('-', om.integer(-v)), ('int', v))
@@ -566,7 +569,12 @@ class ProgGen(object):
                 return lit(r.choice((0, 1, 2, 3, 5, 7, 10, -1, -4, 12)))
             if ty == STR:
                 return lit(r.choice(('', 'a', 'b', 'ab', 'x y', 'Hello')))
+            if ty == REAL:
+                return lit(r.choice((0.5, 1.5, 2.25, 10.0, 0.125, 3.0)))
             return lit(r.random() < 0.5)
+        if ty == REAL:
+            return bin_(r.choice(('+', '-', '*')), self.expr(REAL, depth - 1, selected_kind),
+                        self.expr(REAL, depth - 1, selected_kind))
         if ty == INT:
             op = r.choice(('+', '-', '*', '+', '-', '/', '%', 'card', 'neg'))
             if op == 'card':
@@ -580,7 +588,11 @@ class ProgGen(object):
         if ty == STR:
             return bin_('+', self.expr(STR, depth - 1, selected_kind), self.expr(STR, depth - 1, selected_kind))
         # boolean
-        op = r.choice(('cmp', 'cmp', 'and', 'or', 'not', 'streq', 'empty', 'booleq', 'insteq'))
+        op = r.choice(('cmp', 'cmp', 'and', 'or', 'not', 'streq', 'empty', 'booleq', 'insteq', 'realcmp'))
+        if op == 'realcmp':
+            self.stats['real-comparison'] = self.stats.get('real-comparison', 0) + 1
+            return bin_(r.choice(('<', '<=', '>', '>=')), self.expr(REAL, depth - 1, selected_kind),
+                        self.expr(REAL, depth - 1, selected_kind))
         if op == 'cmp':
             return bin_(r.choice(('<', '<=', '>', '>=', '==', '!=')), self.expr(INT, depth - 1, selected_kind),
                         self.expr(INT, depth - 1, selected_kind))
@@ -678,7 +690,7 @@ class ProgGen(object):
             choices += ['stop']
         k = r.choice(choices)
         if k == 'assign':
-            ty = r.choice((INT, INT, STR, BOOL))
+            ty = r.choice((INT, INT, INT, STR, STR, BOOL, BOOL, REAL))
             vs = self.vars_of(lambda t: t == ty)
             name = r.choice(vs)[0] if vs and r.random() < 0.5 else self.fresh()
             return assign(var(name), self.expr(ty, 3)), [(name, ty)]
